@@ -80,11 +80,10 @@ func zzReadTypes() []kv.ReplicaReadType {
 // zzNewSelWorld builds a one-region cache (3 TiKV peers on stores 1..3), a
 // request and a replica selector, then overwrites the selector state with
 // symbolic values.
-func zzNewSelWorld(write, seams, symLiveness bool) *zzSelWorld {
+func zzNewSelWorld(nrep int, write, seams, symLiveness bool) *zzSelWorld {
 	sw := &zzSelWorld{seams: seams}
 	w := &zzWorld{}
 	w.pd = zzLayout(nil)
-	nrep := zzParam("c10replicas", 3)
 	w.pd.regions[0].Peers = w.pd.regions[0].Peers[:nrep]
 	w.c = NewRegionCache(w.pd)
 	w.bo = retry.NewBackofferWithVars(context.Background(), 40000, nil)
@@ -238,7 +237,7 @@ func (sw *zzSelWorld) snapshot() (stale [3]bool, live [3]uint32) {
 // the configured read type; plus the common step postconditions.
 func ZZ_C10_next_write() {
 	seams := zzParam("c10seams", 1) == 1
-	sw := zzNewSelWorld(true, seams, false)
+	sw := zzNewSelWorld(zzParam("c10replicas", 3), true, seams, false)
 	defer sw.w.c.Close()
 	if seams {
 		sw.installSeams()
@@ -255,7 +254,7 @@ func ZZ_C10_next_write() {
 // read type, stale or not).
 func ZZ_C10_next_read() {
 	seams := zzParam("c10seams", 1) == 1
-	sw := zzNewSelWorld(false, seams, false)
+	sw := zzNewSelWorld(zzParam("c10readreplicas", 2), false, seams, false) // the read dimensions multiply with the replica count
 	defer sw.w.c.Close()
 	if seams {
 		sw.installSeams()
@@ -294,7 +293,7 @@ func ZZ_C10_on_update_leader() {
 func ZZ_C10_handlers_monotone() {
 	// the lean set of dimensions (as with seams, but no seam is installed and
 	// liveness stays symbolic: updateLeader looks at it)
-	sw := zzNewSelWorld(zzBool("write"), true, true)
+	sw := zzNewSelWorld(zzParam("c10replicas", 3), zzBool("write"), true, true)
 	sw.seams = false
 	defer sw.w.c.Close()
 	// a target as after a send
